@@ -65,7 +65,7 @@ def run(tier, seed, report):
     samples = []
     seen = set()
     pids_pool = ["p", "pq", "doi:10.5063/F1/x", "../../etc/passwd", "ünï©ode-\U0001F600", "a" * 300, "-rf", ".hidden"]
-    fmts_pool = [None, "http://ns/f#1", "f/../g", ""]
+    fmts_pool = [None, "http://ns/f#1", "f/../g", "", " lead", "trail\n", "\ttab both "]
     for (d, w, alg) in grid:
         cfg = dict(depth=d, width=w, store_alg=alg)
         contents = oracle.Contents()
